@@ -13,7 +13,7 @@ use std::collections::HashMap;
 
 pub const ID: &str = "C12";
 
-pub const RULE: &str = "cases = (recursive grammar, input). (1) Generated grammars with 1..2 (mutually) recursive definitions, every reference guarded (a token is consumed between the start of a definition and any reference to it), of four body shapes (delimited self-reference, prefix chain, list, free) plus templates (paren nest, list nest, two mutually recursive definitions, recursion under choice / repetition / lookahead) on all strings over a 4-symbol alphabet up to length L and derived sentences nested to every depth 0..12 with edits: compared with the reference PEG evaluator (native recursion) on acceptance, output, consumed extents. (2) Unrolling, reference-free: the same grammar with every reference expanded to depth len(input)+1 and NO Recursive in it (guardedness bounds the needed depth) must give the identical output and error list. (3) Value independence: the parser built with recursive(), with Recursive::declare()/define(), and with a handle cloned BEFORE define whose declaring handle is then dropped; cloned, boxed, moved into Rc with the original dropped -- all must give the same results. (4) Depth: x | ( expr ), x | [ expr , .. ] and a Pratt prefix chain, recursive() and declare/define, in parse, check and to_slice (value-eliding) mode, balanced and truncated inputs, depths 10, 10^2, .. 10^5 (quick) and 3*10^5, 10^6 (thorough), each in a child process (address-space limit) on a thread with a deliberately SMALL 256 KiB native stack -- the library's stack guard makes nesting depth independent of the native stack, a recursion site that bypasses it overflows after a few thousand levels: the child must exit normally and report the right depth (resp. a reported error for truncated input). (5) define twice: histories over declare / define(g1) / define(g2) / clone / parse: the second define must panic naming the caller's location, and the parser keeps behaving as g1. Two depth-ladder shapes run a user callback with a 40 KiB stack frame at every level (depths 50, 2 000, 20 000). NON-TRIVIAL = the reference recursed at least twice for that input, or entered the recursion and abandoned it by backtracking; distinct = distinct (sub-check, grammar, input).";
+pub const RULE: &str = "cases = (recursive grammar, input). (1) Generated grammars with 1..2 (mutually) recursive definitions, every reference guarded (a token is consumed between the start of a definition and any reference to it), of four body shapes (delimited self-reference, prefix chain, list, free) plus templates (paren nest, list nest, two mutually recursive definitions, recursion under choice / repetition / lookahead) on all strings over a 4-symbol alphabet up to length L and derived sentences nested to every depth 0..12 with edits: compared with the reference PEG evaluator (native recursion) on acceptance, output, consumed extents. (2) Unrolling, reference-free: the same grammar with every reference expanded to depth len(input)+1 and NO Recursive in it (guardedness bounds the needed depth) must give the identical output and error list. (3) Value independence: the parser built with recursive(), with Recursive::declare()/define(), and with a handle cloned BEFORE define whose declaring handle is then dropped; cloned, boxed, moved into Rc with the original dropped -- all must give the same results. (4) Depth: x | ( expr ), x | [ expr , .. ] and a Pratt prefix chain, recursive() and declare/define, in parse, check and to_slice (value-eliding) mode, balanced and truncated inputs, depths 10, 10^2, .. 10^5 (quick) and 3*10^5, 10^6 (thorough), each in a child process (address-space limit) on a thread with a deliberately SMALL 256 KiB native stack -- the library's stack guard makes nesting depth independent of the native stack, a recursion site that bypasses it overflows after a few thousand levels: the child must exit normally and report the right depth (resp. a reported error for truncated input). (5) define twice: histories over declare / define(g1) / define(g2) / clone / parse: the second define must panic naming the caller's location, and the parser keeps behaving as g1. Two depth-ladder shapes run a user callback with a 40 KiB stack frame at every level (depths 50, 2 000, 20 000). Every grammar is first built in all three styles inside the panic guard; a depth shape whose deepening recursive call is never the first one of its parent ([x,[x,[x,..]]], depths 1 000 and 100 000). NON-TRIVIAL = the reference recursed at least twice for that input, or entered the recursion and abandoned it by backtracking; distinct = distinct (sub-check, grammar, input).";
 
 pub const ASSUMPTIONS: &[&str] = &[
     "reference PEG evaluator for part (1); part (2) needs no reference",
